@@ -9,7 +9,7 @@ def make_cases(rng, tier, n):
     for i in range(n):
         pipe = rng.random() < 0.3
         if pipe:
-            c = gen.pipeline_project(rng, "pf-%d" % i, rng.choice([2, 3]), tier=tier)
+            c = gen.pipeline_project(rng, "pf-%d" % i, rng.choice([2, 3]), tier=tier, sink=rng.random() < 0.5)
             ops = [("run", False, []), ("commit", rng.choice("lc"), [])]
             names = [sp for sp, st in c["stages"]]
         else:
@@ -22,6 +22,8 @@ def make_cases(rng, tier, n):
         single = False
         if flow == "single" and len(names) > 1:
             tg = [rng.choice(names)]
+            if pipe and c["kinds"][-1] == "sink" and rng.random() < 0.7:
+                tg = [names[-1]]          # only the leaf that has nothing to cache itself is named: everything upstream is in scope
             single = rng.random() < 0.5
         if flow == "push_missing":
             ops += [("rmobj", rng.randrange(100)), ("push", False, [])]
